@@ -143,6 +143,10 @@ func ExportPrivateKey(keyPath string, passphrase []byte) ([]byte, error) {
 		return nil, fmt.Errorf("failed to create GCM: %w", err)
 	}
 
+	if len(data.Nonce) != gcm.NonceSize() {
+		return nil, fmt.Errorf("invalid nonce length %d in key file", len(data.Nonce))
+	}
+
 	// Decrypt the private key
 	privKeyBytes, err := gcm.Open(nil, data.Nonce, data.PrivKeyEncrypted, nil)
 	if err != nil {
@@ -347,6 +351,10 @@ func (s *FileSystemSigner) loadKeys(passphrase []byte) error {
 	gcm, err := cipher.NewGCM(block)
 	if err != nil {
 		return fmt.Errorf("failed to create GCM: %w", err)
+	}
+
+	if len(data.Nonce) != gcm.NonceSize() {
+		return fmt.Errorf("invalid nonce length %d in key file", len(data.Nonce))
 	}
 
 	// Decrypt the private key
